@@ -11,3 +11,4 @@ import Iota.Props.C04
 import Iota.Props.C05
 import Iota.Tie.C19
 import Iota.Props.C19
+import Iota.Props.C16
